@@ -205,6 +205,39 @@ def ops_worker(job):
                     except Exception as e:  # noqa
                         acc.violation(f'cmp:{name}:{ca}+{cb}:raises:{type(e).__name__}:unnormalised', 'cmp', f'{la} , {lb}',
                                       str(e), 'a bool', name)
+        # augmented assignment (a += b, a -= b, a *= k, a /= k): the name is rebound to the result; an object is a value, so another
+        # reference to the old left operand (a kept leaf, a list slot, a caller's variable) still denotes the old angle
+        if rng.random() < 0.35:
+            for ca in OBJ:
+                cb = rng.choice(OBJ)
+                kk2 = rng.choice([2, 0.5, 3, -1.5])
+                for opname in ('iadd', 'isub', 'imul', 'itruediv'):
+                    a0 = make(ca, x)
+                    alias = a0
+                    b0 = make(cb, y)
+                    d0, dbv = a0.dec(), b0.dec()
+                    exp = {'iadd': d0 + dbv, 'isub': d0 - dbv, 'imul': d0 * kk2, 'itruediv': d0 / kk2}[opname]
+                    if abs(exp) >= 720:
+                        continue
+                    inp2 = f'a = {ca}({x!r}); keep = a; a {opname[1:]}= ' + (f'{cb}({y!r})' if opname in ('iadd', 'isub') else repr(kk2))
+                    acc.count('op')
+                    try:
+                        a1 = a0
+                        if opname == 'iadd':
+                            a1 += b0
+                        elif opname == 'isub':
+                            a1 -= b0
+                        elif opname == 'imul':
+                            a1 *= kk2
+                        else:
+                            a1 /= kk2
+                    except Exception as e:  # noqa
+                        acc.violation(f'op:{opname}:{ca}:raises:{type(e).__name__}', 'op', inp2, f'{type(e).__name__}: {e}', repr(exp), opname)
+                        continue
+                    if cls(a1) != ca or not close(a1, exp):
+                        acc.violation(f'op:{opname}:{ca}:wrong-value', 'op', inp2, show(a1), f'{exp!r} deg', opname)
+                    if not close(alias, d0) or not close(b0, dbv):
+                        acc.violation(f'op:{opname}:{ca}:operand-changed', 'op', inp2, [show(alias), show(b0)], f'{d0!r} deg and {dbv!r} deg, unchanged', opname)
         for c in OBJ:
             a = make(c, x)
             da = a.dec()
